@@ -89,6 +89,7 @@ type world struct {
 	slots      map[int]snapshot // latest stored advertisement per sender
 	mseq       map[[2]int]uint64          // mirror of NeighborState.AdvertSeq as the protocol defines it
 	held       map[int]snapshot           // advertisement Data "in flight": stored, to arrive late
+	abort      bool                       // the case is over (a bound was exceeded and reported)
 	lastAdv    map[int]*tlv.Advertisement // the last advertisement of a router that went down (for late updates)
 	need       map[[2]int]bool  // (i, j): j announced a change (or is new to i) that i has not fetched yet
 	delivered  bool             // some stored advertisement was delivered so far
@@ -523,10 +524,19 @@ func (w *world) evDeliver(i, j int) {
 
 // notification-driven schedule, as the real protocol runs: a router fetches a neighbour's advertisement only when
 // that neighbour announced a change; run until nobody has anything left to fetch
+// a correct notification-driven run of 6 routers needs at most ~200 fetches to come to rest
+const quiesceBound = 1500
+
+// cases that did not come to rest so far in this run; after a few the run stops generating (the failure is established)
+var noQuiet int
+
 func (w *world) quiesce() { w.quiesceLast(-1) }
 
 // lazy >= 0: that router is slow — it fetches only when nobody else has anything left to fetch
 func (w *world) quiesceLast(lazy int) {
+	if w.abort {
+		return
+	}
 	for steps := 0; ; steps++ {
 		ps := [][2]int{}
 		slow := [][2]int{}
@@ -545,8 +555,12 @@ func (w *world) quiesceLast(lazy int) {
 		if len(ps) == 0 {
 			break
 		}
-		if steps > 20000 {
+		if steps > quiesceBound {
+			// "reaches within a bounded number of exchanges a fixed point": about ten times what any correct run needs
+			w.obsAll()
 			fmt.Fprintf(w.w, "noquiet %d\n", steps)
+			w.abort = true
+			noQuiet++
 			return
 		}
 		sort.Slice(ps, func(a, b int) bool { return ps[a][0] < ps[b][0] || (ps[a][0] == ps[b][0] && ps[a][1] < ps[b][1]) })
@@ -968,6 +982,9 @@ func (w *world) detectAll() {
 }
 
 func (w *world) converge(clean bool) {
+	if w.abort {
+		return
+	}
 	w.detectAll()
 	if !clean && w.r.Intn(4) != 0 {
 		lazy := -1
@@ -975,6 +992,9 @@ func (w *world) converge(clean bool) {
 			lazy = w.r.Intn(w.n) // one router is slow to fetch: it sees only the settled advertisements
 		}
 		w.quiesceLast(lazy)
+		if w.abort {
+			return
+		}
 	}
 	md := w.maxDist()
 	rounds := 16 + md + 1
@@ -990,6 +1010,9 @@ func (w *world) converge(clean bool) {
 	}
 	w.obsAll()
 	fmt.Fprintf(w.w, "%s %d\n", kind, rounds)
+	if w.abort {
+		return
+	}
 	// one more round must not change any table (fixed point of the routing tables)
 	w.round()
 	w.obsAll()
@@ -1006,6 +1029,9 @@ func (w *world) converge(clean bool) {
 }
 
 func (w *world) fault(edges [][2]int) {
+	if w.abort {
+		return
+	}
 	switch w.r.Intn(10) {
 	case 9:
 		w.restartScenario()
@@ -1235,6 +1261,79 @@ func runCase(t *testing.T, out *bufio.Writer, r *rand.Rand, k int, kind string, 
 	return fail
 }
 
+// The oracle of refresh_order_independent on the implementation: entries with >= 3 finite-cost next hops and ties for
+// the first AND the second place (what full meshes K4, K5 and K_{2,3} produce), filled through the real ribUpdate / Set /
+// refresh path; then the same unchanged advertisements are re-delivered many times (each re-delivery iterates the Go
+// map in a fresh random order): next hops and costs must be the two least (cost, hash) pairs every time and the
+// re-delivery must not report a change.
+//   rf   <h=c,h=c,..> <nh1>/<l1>/<nh2>/<l2>            after the initial deliveries
+//   rfre <h=c,h=c,..> <nh1>/<l1>/<nh2>/<l2> <dirty>    after each re-delivery of an unchanged advertisement
+func refreshOracle(t *testing.T, out *bufio.Writer, r *rand.Rand, trials int) {
+	patterns := [][]uint64{
+		{2, 2, 2}, {2, 2, 2, 2}, {3, 3, 3, 3, 3}, // all tied (full mesh: every neighbour is one hop from the rest)
+		{1, 2, 2}, {1, 2, 2, 2}, {1, 3, 3, 3, 3}, // unique best, ties for second place
+		{2, 2, 3, 3}, {2, 2, 2, 5}, {4, 4, 4, 9, 9}, {1, 1, 2, 2, 2}, {5, 2, 2, 7, 2},
+	}
+	synctest.Test(t, func(t *testing.T) {
+		for k := 0; k < trials; k++ {
+			pat := patterns[k%len(patterns)]
+			name := func(s string) enc.Name { n, _ := enc.NameFromStr(s); return n }
+			me := name(fmt.Sprintf("/net/me%d", r.Intn(1000000)))
+			dest := name(fmt.Sprintf("/net/d%d", r.Intn(1000000)))
+			far := name("/net/elsewhere")
+			rt := newRouter(me)
+			hops := []enc.Name{}
+			advs := []*tlv.Advertisement{}
+			for q, c := range pat {
+				h := name(fmt.Sprintf("/net/h%d-%d", q, r.Intn(1000000)))
+				hops = append(hops, h)
+				advs = append(advs, &tlv.Advertisement{Entries: []*tlv.AdvEntry{{Destination: &tlv.Destination{Name: dest},
+					NextHop: &tlv.Destination{Name: far}, Cost: c - 1, OtherCost: 16}}})
+				rt.Vf18AddNeighbor(h)
+			}
+			for _, q := range r.Perm(len(hops)) {
+				rt.Vf18RibUpdate(hops[q], advs[q])
+			}
+			synctest.Wait()
+			time.Sleep(100 * time.Millisecond)
+			dump := func() string {
+				for _, e := range rt.Vf18Rib().Vf18Dump() {
+					if !e.Name.Equal(dest) {
+						continue
+					}
+					hs := make([]uint64, 0, len(e.Costs))
+					for h := range e.Costs {
+						hs = append(hs, h)
+					}
+					sort.Slice(hs, func(a, b int) bool { return hs[a] < hs[b] })
+					cs := make([]string, len(hs))
+					for q, h := range hs {
+						cs[q] = u(h) + "=" + u(e.Costs[h])
+					}
+					return fmt.Sprintf("%s %d/%d/%d/%d", strings.Join(cs, ","), e.NextHop1, e.Lowest1, e.NextHop2, e.Lowest2)
+				}
+				return "- 0/16/0/16"
+			}
+			fmt.Fprintf(out, "rf %s\n", dump())
+			seq := rt.Vf18AdvertSeq()
+			for rep := 0; rep < 25; rep++ {
+				q := r.Intn(len(hops))
+				rt.Vf18RibUpdate(hops[q], advs[q])
+				synctest.Wait()
+				time.Sleep(20 * time.Millisecond)
+				s2 := rt.Vf18AdvertSeq()
+				d := 0
+				if s2 != seq {
+					d = 1
+				}
+				seq = s2
+				fmt.Fprintf(out, "rfre %s %d\n", dump(), d)
+			}
+			rt.Vf18StopNfdc()
+		}
+	})
+}
+
 func TestTrace(t *testing.T) {
 	log.SetHandler(log.HandlerFunc(func(*log.Entry) error { return nil }))
 	seed, _ := strconv.ParseInt(os.Getenv("VERIF_SEED"), 10, 64)
@@ -1258,11 +1357,17 @@ func TestTrace(t *testing.T) {
 	k := 0
 	fails := []string{}
 	one := func(kind string, nn int, edges [][2]int, faults int) {
+		if noQuiet >= 3 {
+			return // enough histories that do not come to rest have been reported
+		}
 		if msg := runCase(t, out, r, k, kind, nn, edges, faults); msg != "" {
 			fails = append(fails, fmt.Sprintf("case %d: %s", k, msg))
 			fmt.Fprintf(out, "harnessfail %d %s\n", k, msg)
 		}
 		k++
+	}
+	if os.Getenv("VERIF_GRAPH") == "" {
+		refreshOracle(t, out, r, 33)
 	}
 	if g := os.Getenv("VERIF_GRAPH"); g != "" {
 		// scripted case (used to produce corpus histories): "n:a-b,c-d,..." ; after bring-up and convergence router
